@@ -6,7 +6,8 @@ import random
 from .. import conv, scen, stackprop
 
 CODES = {1: "number of unicast answers differs from the number of FindService entries a ready, matching instance had to answer",
-         2: "an answer was sent outside the allowed window or to somebody who did not ask", 3: "an answer differs from the instance's configured offer", 98: "a transmitted datagram did not decode"}
+         2: "an answer was sent outside the allowed window or to somebody who did not ask", 3: "an answer differs from the instance's configured offer",
+         4: "an answer left while the instance was in its initial wait phase or stopped", 98: "a transmitted datagram did not decode"}
 
 
 SHARED = [C.Service(0x1111, 1, 1, 7), C.Service(0x1111, 1, 2, 7), C.Service(0x1111, 1, 1, 8), C.Service(0x1111, 2, 1, 7)]
@@ -53,6 +54,8 @@ def run(ctx):
     scs = stackprop.corpus_scenarios("C12") + [shared_ids_scenario(r) if k % 3 == 2 else (scen.server_scenario(r) if k % 2 else scen.lifecycle_scenario(r)) for k in range(n)]
     rll = random.Random(ctx.seed * 7919 + 112)     # a stream of its own
     scs += [scen.link_local_twins(rll) for _ in range(30 if quick else 1000)]
+    rwi = random.Random(ctx.seed * 7919 + 212)     # a stream of its own
+    scs += [scen.wildcard_instance(rwi) for _ in range(30 if quick else 1000)]
     stackprop.run_scenarios(ctx, scs, 3012, CODES, what="find answers")
 
 
